@@ -161,7 +161,7 @@ func modPowRule(P *Program, R *Report) {
 			}
 			continue
 		}
-		t := be.Use[r][r.Results[0]]
+		t := be.Use[r][retValue(r, 0)]
 		// sign of y on this return's paths
 		negPath, posPath := false, false
 		for _, a := range controllingConds(r.Block()) {
@@ -225,7 +225,7 @@ func crtRule(P *Program, R *Report) {
 	n, ok := 0, true
 	var got []string
 	for _, r := range returnsOf(fn) {
-		t := be.Use[r][r.Results[0]]
+		t := be.Use[r][retValue(r, 0)]
 		n++
 		got = append(got, t.String())
 		if !t.equal(want) {
@@ -259,7 +259,7 @@ func primeSqrtRule(P *Program, R *Report) {
 	short := termFn("Exp", a, tsum(termFn("Rsh", p, tconst(2)), tconst(1)), p)
 	found := false
 	for _, r := range returnsOf(fn) {
-		t, has := be.Use[r][r.Results[0]]
+		t, has := be.Use[r][retValue(r, 0)]
 		if !has || !t.equal(short) {
 			continue
 		}
@@ -433,7 +433,7 @@ func fastModRule(P *Program, R *Report) {
 	}
 	nFallback := 0
 	for _, r := range returnsOf(fn) {
-		if isFallback(r.Results[0]) {
+		if isFallback(retValue(r, 0)) {
 			nFallback++
 		}
 	}
@@ -442,7 +442,7 @@ func fastModRule(P *Program, R *Report) {
 	okNonNeg, okEnabled := true, true
 	var negDetail, disDetail []string
 	for _, r := range returnsOf(fn) {
-		if isFallback(r.Results[0]) {
+		if isFallback(retValue(r, 0)) {
 			continue
 		}
 		q := &MustPass{P: P, Match: func(a Atom) bool {
@@ -474,7 +474,7 @@ func fastModRule(P *Program, R *Report) {
 	}
 	okDom := signBlock != nil
 	for _, r := range returnsOf(fn) {
-		if isFallback(r.Results[0]) {
+		if isFallback(retValue(r, 0)) {
 			continue
 		}
 		if signBlock == nil || !signBlock.Dominates(r.Block()) {
@@ -487,11 +487,11 @@ func fastModRule(P *Program, R *Report) {
 	var details []string
 	nFast := 0
 	for _, r := range returnsOf(fn) {
-		if isFallback(r.Results[0]) {
+		if isFallback(retValue(r, 0)) {
 			continue
 		}
 		nFast++
-		v := r.Results[0]
+		v := retValue(r, 0)
 		// returns of the form ret.Set(x)/ret.Sub(x, p) are guarded by x < p resp. follow x >= p: accept Set under x<p, Sub anywhere after a >= test
 		if c, ok := v.(*ssa.Call); ok {
 			switch bigMethod(c) {
